@@ -76,6 +76,7 @@ func init() {
 		{"C05", "splitbits", props.SplitBits},
 		{"C10", "splitbits", props.SplitBits},
 		{"C11", "directwrite", props.TransportWriteExclusive},
+		{"C11", "lockduplex", props.C11lock},
 		{"C04", "constbalance", props.ConstBalance},
 		{"C03", "constbalance", props.ConstBalance},
 		{"C05", "constbalance", props.ConstBalance},
